@@ -6,7 +6,7 @@ RULE = ("V(pin): every element of CpuPick.tla's lattice is one TLC state: all no
         "checks that the code's arrange (all node choices x rotations) satisfies Post and emits the acceptable member sets; "
         "the real pickCandidates/arrange run under 4-8 instance hashes each. V(list): all strings of length <= 4 (5) over "
         "{0,1,9,-,',',space,newline,+,:} classified against the kernel's cpulist syntax and parsed by the real parseCPUList. "
-        "T: seeded random machines as fake sysfs trees through the pipeline of Default, and longer strings, judged by TLC")
+        "T: seeded random machines as fake sysfs trees (a quarter of them without socket information: physical_package_id -1) through the pipeline of Default, and longer strings, judged by TLC")
 ASSUMPTIONS = [
     "the candidates are taken as the code reports them and must be the allowed set or the performance subset; when the "
     "performance subset is used is not part of the statement",
@@ -63,7 +63,7 @@ def run(ctx):
                     key = ('random:cpulist:accepts-non-kernel-syntax:' + sub) if v['class'] == 'refuse' else 'random:cpulist:kernel-output'
                     ctx.violation(key, 'parseCPUList(%r): accepted=%s value=%s; class %s' % (o['s'], o['accepted'], o['got'], v['class']), o)
     ctx.extra['random_list_classes'] = classes
-    ctx.require_actions('pin', 'list:accept', 'list:refuse', 'list:free', 'T:pin', 'T:list')
+    ctx.require_actions('pin', 'list:accept', 'list:refuse', 'list:free', 'T:pin', 'T:list', 'T:package-id-unknown')
 
 
 META = {
